@@ -214,7 +214,7 @@ PROPS = {
                      "sequential semantics (the real function holds the read lock of the database map for the whole emission)"],
     ),
     "C06": dict(
-        units=["snapshot", "store", "driver"],
+        units=["snapshot", "store", "driver", "outbox"],
         kani=[K_LIVE_VERSION, K_STATUS_CODEC],
         undecided=["file-system glue: that the files an incremental snapshot or the loader opens are the files the previous snapshot left (get_key_file_append_mode / "
                    "get_values_file_append_mode / get_key_write_mode: rename, remove, open) - trusted externals; the chain lemma C06.invariant-chains is about byte sequences",
